@@ -7,6 +7,13 @@ def run(ctx):
     ctx.model("MC_Ensemble", "MC_Ensemble%s.cfg" % ("" if q else "_deep"), require_actions=("Upd", "Rst"))
     ns, nb = (30, 16) if q else (200, 100)
     specs = [D.random_spec(rng, "stream") for _ in range(ns)]
+    # every election kind with members that can WARN (a warning next to a drift, ties between the two): a vote is counted for what it is
+    for i, ek in enumerate(["majority", "majority", "min", "ordered", "confirmed", "majority"] * (1 if q else 4)):
+        sp = D.random_spec(rng, "stream")
+        sp["members"] = [["ddm", "stepd"], ["ddm", "eddm", "stepd"], ["ddm", "stepd", "lfr", "eddm"]][i % 3]
+        sp["election"] = {"kind": ek, "a": rng.randint(1, len(sp["members"]) - 1), "c": rng.choice([0, 1, 2]) if ek == "confirmed" else rng.randint(0, 1)}
+        sp["n"], sp["resets"], sp["replace_at"] = 200, [], -1
+        specs.append(sp)
     traces = [D.run_stream(s) for s in specs]
     ctx.validate("Ensemble", traces, "StreamingEnsemble vs lone twins", sabotage=D.sabotage,
                  replay=lambda i: traces[i]["spec"],
